@@ -2820,20 +2820,22 @@ LEAN_OBLIGATIONS.update({
     "C09": dict(
         modules=["Tumfl.Props.C09", "Tumfl.Props.C19", "Tumfl.Props.C05"],
         obligations=["Tumfl.Props.C09_lexer_total", "Tumfl.Props.C09_lexer_terminates", "Tumfl.Props.C09_lexer_progress", "Tumfl.Props.C09_parser_errors",
+                     "Tumfl.Props.C09_no_assertion", "Tumfl.Props.C09_parse_total",
                      "Tumfl.Props.C09_no_index_error", "Tumfl.Props.C05_rejects_cleanly", "Tumfl.Props.C05_terminates"],
         extractors=["Ladder", "LexTables"],
         tie_names=["T1:Ladder", "T1:LexTables", "T2:parse (error kind, token, hints on every malformed input)"],
-        partial_hypotheses=["proved: the lexer is total (LexerError or tokens, terminates) for any text; the parser never raises IndexError and every parser failure is a lexer "
-                            "error, a ParserError, one of two AssertionError sites, or fuel exhaustion; NOT yet proved: those two AssertionError sites are unreachable and the "
-                            "parser's fuel suffices (covered by T2:parse on the malformed streams); error positions inside the text: oracle only"],
+        partial_hypotheses=["proved for any text: the lexer is total and terminates; parse returns a tree or raises LexerError/ParserError - never IndexError, never "
+                            "AssertionError; NOT proved: that the model parser's fuel (4*len+64) suffices, i.e. termination of the parser (T2:parse on the malformed streams would "
+                            "show `fuel` as a difference); error positions inside the text: oracle only"],
     ),
     "C13": dict(
         modules=["Tumfl.Props.C13"],
-        obligations=["Tumfl.Props.C13_emit_on", "Tumfl.Props.C13_emit_off", "Tumfl.Props.C13_placement"],
+        obligations=["Tumfl.Props.C13_parsed", "Tumfl.Props.C13_emit_on", "Tumfl.Props.C13_emit_off", "Tumfl.Props.C13_placement"],
         extractors=["FmtTables", "Brackets"],
         tie_names=["T2:format (comment pieces through every stage to the final text)", "T2:parse (comment lists on statement tokens)"],
-        partial_hypotheses=["emission stage only, under the explicit hypothesis TreeWF (no name/numeral spelling starts with `--`, no chunk directly under if/repeat); "
-                            "that parser output satisfies TreeWF and that layout and final text keep the comment pieces: T2 and oracle streams"],
+        partial_hypotheses=["proved: parse then emit yields as comment pieces exactly the statement comments of the tree, in order, once each, in front of their statements; that "
+                            "the statement's comment list is the list of comments that precede it in the source combines C20_all_comments with T2:parse; that the layout passes keep "
+                            "comment pieces is C08_* (pieces are kept) - not composed into one statement about the final text"],
     ),
     "C14": dict(
         modules=["Tumfl.Props.C14"],
